@@ -7,6 +7,7 @@ VARIABLES fmt, arrs
 vars == <<fmt, arrs>>
 LenAll == 0..2002
 LenEdge == {0, 1, 105, 106, 1000, 1001}
+LenDense == (0..12) \cup (102..108) \cup (207..213) \cup (997..1003) \cup (1997..2003)
 
 WOf(t) == IF t = "C0NN" THEN CWidths ELSE IF t = "CHAR" THEN {8} ELSE {0}
 Init == fmt \in BOOLEAN /\ arrs = <<>>
@@ -21,6 +22,7 @@ Next == \/ \E t \in Types \ {"MESS"} : \E w \in WOf(t) : \E n \in Lengths : Writ
 Spec == Init /\ [][Next]_vars
 
 Laws == \A i \in 1..Len(arrs) : LayoutLaws(fmt, arrs[i].t, arrs[i].w, arrs[i].n)
+FormsAgree == \A i \in 1..Len(arrs) : FormLaws(fmt, arrs[i].t, arrs[i].w, arrs[i].n)
 IndexAgrees == \A i \in 1..Len(arrs) : ImplDataPos(fmt, arrs, i) = DataPos(fmt, arrs, i)
 SeekFindsHeader == \A i \in 1..Len(arrs) : ImplSeekPos(fmt, arrs, i) = StartOf(fmt, arrs, i)
 SizeIsSum == FileBytes(fmt, arrs) =
